@@ -225,6 +225,14 @@ class Interp:
         self.next_sym += 1
         return s
 
+    def pin_from(self, oid0):
+        """objects made while a module / class namespace was set up (also by functions it called) live as long as the
+        namespace does: a loop pass that happened to trigger the set-up must not take them away again"""
+        for oid in range(oid0, self.next_oid):
+            o = self.heap.get(oid)
+            if o is not None:
+                o.pinned = True
+
     def alloc(self, obj):
         oid = self.next_oid
         self.next_oid += 1
@@ -400,10 +408,12 @@ class Interp:
         saved = (self.guard, self.loop_ctx, self.frames, getattr(self, "alloc_ctx", None))
         self.guard, self.loop_ctx, self.frames = [], [], [fr]
         self.alloc_ctx = "module " + name
+        oid0 = self.next_oid
         try:
             self.exec_block(m.tree.body)
         finally:
             self.guard, self.loop_ctx, self.frames, self.alloc_ctx = saved
+            self.pin_from(oid0)
         return ns
 
     def import_name(self, modname, attr=None):
@@ -547,6 +557,7 @@ class Interp:
         saved = (self.guard, self.loop_ctx, self.frames, getattr(self, "alloc_ctx", None))
         self.guard, self.loop_ctx, self.frames = [], [], [fr]
         self.alloc_ctx = "class " + cinfo.qual
+        oid0 = self.next_oid
         try:
             for st in cinfo.node.body:
                 if isinstance(st, (ast.FunctionDef, ast.AsyncFunctionDef)):
@@ -555,6 +566,7 @@ class Interp:
                     self.exec_stmt(st)
         finally:
             self.guard, self.loop_ctx, self.frames, self.alloc_ctx = saved
+            self.pin_from(oid0)
         return ns
 
     def class_attr(self, cinfo, name):
@@ -1120,6 +1132,8 @@ class _CallMixin:
                     args.extend(i[1] for i in lo.items)
                 elif isinstance(v, Const) and isinstance(v.v, tuple):
                     args.extend(Const(x) for x in v.v)
+                elif self.concrete_iter(self.simp(v)) is not None and len(self.concrete_iter(self.simp(v))) <= UNROLL_MAX:
+                    args.extend(self.concrete_iter(self.simp(v)))
                 else:
                     args.append(Op("starred", v))
             else:
@@ -1222,6 +1236,12 @@ class _CallMixin:
                 pass
         if name == "format":
             return str_format(recv, args, kwargs)
+        if name in ("removeprefix", "removesuffix") and len(args) == 1 and is_const(args[0], (str, bytes)) and args[0].v and not kwargs:
+            # canonical form: the test-and-slice idiom
+            n_ = len(args[0].v)
+            if name == "removeprefix":
+                return ite(Op("m:startswith", recv, args[0]), Op("getslice", recv, Const(n_), NONE), recv)
+            return ite(Op("m:endswith", recv, args[0]), Op("getslice", recv, NONE, Const(-n_)), recv)
         if name in ("startswith", "endswith") and isinstance(recv, Op) and recv.op in ("fmt", "concat") and len(args) == 1 and is_const(args[0], str):
             edge = recv.args[0] if name == "startswith" else recv.args[-1]
             if is_const(edge, str) and len(edge.v) >= len(args[0].v):
@@ -1337,8 +1357,17 @@ class _CallMixin:
             if isinstance(src, Ref) and isinstance(self.heap[src.oid], DictObj):
                 for k, v, g2, lc2 in self.heap[src.oid].entries:
                     o.entries.append((k, v, and_(g, g2), lc + tuple(lc2)))
-            else:
+            elif isinstance(src, GenV) or (isinstance(src, Ref) and isinstance(self.heap[src.oid], ListObj)) or \
+                    (isinstance(src, Const) and isinstance(src.v, (tuple, list, dict))):
+                # an iterable of (key, value) pairs
+                n0 = len(o.entries)
+                self.fill_dict(ref, o, src, node)
+                if g != TRUE or lc:
+                    o.entries[n0:] = [(k_, v_, and_(g, g_), tuple(lc) + tuple(x for x in l_ if x not in lc)) for k_, v_, g_, l_ in o.entries[n0:]]
+            elif src is not None:
                 o.entries.append((Op("**"), src, g, lc))
+            for kk, vv in kwargs.items():
+                self.setitem(ref, Const(kk), vv, node)
             self.event("dict_update", (ref, src), node)
             if self.writelog is not None:
                 self.writelog.add(("dict", ref.oid))
@@ -1388,6 +1417,13 @@ class _CallMixin:
             pos0 = [a for a in f.args[1:] if not (isinstance(a, Op) and a.op == "kv")]
             kw0.update(kwargs)
             return self.call_value(f.args[0], pos0 + list(args), kw0, node)
+        if isinstance(f, Op) and f.op == "bound" and is_const(f.args[1], str):
+            # a bound method taken as a value (d.__getitem__, lines.append, ...)
+            if f.args[1].v == "__getitem__" and len(args) == 1 and not kwargs:
+                return self.getitem(f.args[0], args[0], node)
+            if f.args[1].v == "__contains__" and len(args) == 1 and not kwargs:
+                return self.contains(args[0], f.args[0], node) if hasattr(self, "contains") else Op("in", args[0], f.args[0])
+            return self.call_method(f.args[0], f.args[1].v, list(args), dict(kwargs), node)
         if isinstance(f, Op) and f.op == "methodcaller" and is_const(f.args[0], str) and args:
             return self.call_method(args[0], f.args[0].v, list(f.args[1:]) + list(args[1:]), dict(kwargs), node)
         if isinstance(f, Op) and f.op == "attrgetter" and len(f.args) == 1 and is_const(f.args[0], str) and len(args) == 1:
@@ -1397,6 +1433,9 @@ class _CallMixin:
             return v
         if isinstance(f, Op) and f.op == "itemgetter" and len(f.args) == 1 and len(args) == 1:
             return self.getitem(args[0], f.args[0], node)
+        if isinstance(f, Op) and f.op == "itemgetter" and len(f.args) > 1 and len(args) == 1 and \
+                not any(isinstance(x, Op) and x.op == "starred" for x in f.args):
+            return self.mk_list([self.getitem(args[0], x, node) for x in f.args], "tuple")
         if isinstance(f, Op) and f.op == "namedtuple":
             flds = f.args[1]
             names = None
@@ -1440,6 +1479,24 @@ class _CallMixin:
         if cinfo.is_enum:
             return Op("enumctor", Const(cinfo.qual), *args)
         base_exc = any(b.split(".")[-1].endswith(("Exception", "Error")) for b in cinfo.bases)
+        if any(b.split(".")[-1] == "NamedTuple" for b in cinfo.bases):
+            # class X(NamedTuple): annotated class-level names are the fields, in order; assigned values are defaults
+            flds = [(st.target.id, st.value) for st in cinfo.node.body if isinstance(st, ast.AnnAssign) and isinstance(st.target, ast.Name)]
+            if cinfo.methods:
+                raise AnalysisError("NamedTuple class %s with methods is not modelled" % cinfo.qual)
+            vals = list(args)
+            for nm, dflt in flds[len(args):]:
+                if nm in kwargs:
+                    vals.append(kwargs[nm])
+                elif dflt is not None:
+                    vals.append(self.ev_in_module(dflt, cinfo.module.name))
+                else:
+                    raise AnalysisError("%s(...) called without field %s" % (cinfo.qual, nm))
+            if len(vals) != len(flds) or set(kwargs) - {nm for nm, _ in flds}:
+                raise AnalysisError("%s(...) called with %d of %d fields" % (cinfo.qual, len(vals), len(flds)))
+            ref = self.alloc(ListObj(self.born_now(), [("v", v, TRUE) for v in vals], "tuple"))
+            self.heap[ref.oid].fields = [nm for nm, _ in flds]
+            return ref
         inst = Instance(cinfo, self.born_now())
         ref = self.alloc(inst)
         init = self.class_attr(cinfo, "__init__")
@@ -1700,6 +1757,30 @@ class _StmtMixin:
         elif isinstance(t, (ast.Tuple, ast.List)):
             lo = self.as_list(v)
             n = len(t.elts)
+            star = [i for i, e in enumerate(t.elts) if isinstance(e, ast.Starred)]
+            if star:
+                # a, *rest, z = v:  rest is a fresh list of everything between the fixed positions
+                s_, after = star[0], len(t.elts) - 1 - star[0]
+                if lo is not None and lo.concrete() and len(lo.items) >= n - 1:
+                    vals = [it[1] for it in lo.items]
+                    for i, e in enumerate(t.elts):
+                        if i < s_:
+                            self.assign(e, vals[i], st)
+                        elif i == s_:
+                            self.assign(e.value, self.mk_list(vals[s_:len(vals) - after]), st)
+                        else:
+                            self.assign(e, vals[len(vals) - (n - i)], st)
+                    return
+                seq = Op("list", v)
+                for i, e in enumerate(t.elts):
+                    if i < s_:
+                        self.assign(e, Op("getitem", seq, Const(i)), st)
+                    elif i == s_:
+                        mid = Op("getslice", seq, Const(s_), Const(-after) if after else NONE)
+                        self.assign(e.value, self.alloc(ListObj(self.born_now(), [("v", Op("splat", mid), TRUE)], "list")), st)
+                    else:
+                        self.assign(e, Op("getitem", seq, Const(i - n)), st)
+                return
             for i, e in enumerate(t.elts):
                 if isinstance(e, ast.Starred):
                     self.assign(e.value, Op("unpack*", v, Const(i)), st)
@@ -2082,7 +2163,7 @@ class _LoopMixin:
                 del self.loops[lid]
         for oid in list(self.heap):
             if oid not in heap:
-                if getattr(self.heap[oid], "shared", None) is not None:
+                if getattr(self.heap[oid], "shared", None) is not None or getattr(self.heap[oid], "pinned", False):
                     continue        # module / class level objects created by a lazy first use stay: their namespaces do
                 del self.heap[oid]
                 continue
@@ -2158,8 +2239,18 @@ class _LoopMixin:
         self.next_loop += 1
         L.kind = kind
         L.iter = it
+        L.filter = None
         self.loops[L.lid] = L
-        if kind == "for":
+        fused = self.fusable(it) if kind == "for" else None
+        if fused is not None:
+            # for x in (f(y) for y in ys if c(y)) / filter(c, ...):  the same as  for y in ys: if not c(y): continue; x = f(y)
+            L0, term, g = fused
+            L.iter = L0.iter
+            L.trip = L0.trip
+            elem = self.subst_deep(term, {L0.idx: L.idx})
+            L.filter = subst(g, {L0.idx: L.idx})
+            L.fused_from = L0
+        elif kind == "for":
             if isinstance(it, Op) and it.op == "range":
                 a = it.args
                 if len(a) == 1:
@@ -2365,6 +2456,40 @@ class _LoopMixin:
     def target_names_of(self, t):
         return [x.id for x in ast.walk(t) if isinstance(x, ast.Name)]
 
+    def subst_deep(self, term, m, depth=0):
+        """substitute in a term; tuples / lists it refers to are copied with the substitution applied to their elements"""
+        if isinstance(term, Ref) and depth < 4:
+            o = self.heap.get(term.oid)
+            if isinstance(o, ListObj) and o.concrete() and any(k in set(walk(it[1])) or isinstance(it[1], Ref) for it in o.items for k in m):
+                items = [("v", self.subst_deep(it[1], m, depth + 1), subst(it[2], m)) for it in o.items]
+                if all(a[1] is b[1] or a[1] == b[1] for a, b in zip(items, o.items)):
+                    return term
+                ref = self.alloc(ListObj(self.born_now(), items, o.typ))
+                if getattr(o, "fields", None):
+                    self.heap[ref.oid].fields = o.fields
+                return ref
+            return term
+        return subst(term, m)
+
+    def fusable(self, it):
+        """a list / generator that holds exactly the elements one earlier loop produced under a per-element condition"""
+        if not isinstance(it, Ref):
+            return None
+        o = self.heap.get(it.oid)
+        if not (isinstance(o, ListObj) and len(o.items) == 1 and o.items[0][0] == "rep"):
+            return None
+        _, L0, term, g = o.items[0]
+        if L0.kind != "for" or L0.iter is None or L0.stops or L0 in self.loop_ctx:
+            return None
+        gs = list(walk(g))
+        if not any(x == L0.idx for x in gs):
+            return None             # unconditional: elem_of re-indexes it
+        if any(isinstance(x, Sym) and x.kind in ("loopvar", "loopout") for x in gs + list(walk(term))):
+            return None
+        if isinstance(term, Op) and term.op == "splat":
+            return None
+        return L0, term, g
+
     def elem_of(self, it, L):
         """i-th element of the iterated object.  A list that was filled by exactly one
         unconditional append per iteration of an earlier loop yields that loop's
@@ -2379,7 +2504,7 @@ class _LoopMixin:
                 _, L0, term, g = o.items[0]
                 inv = not any(isinstance(x, Sym) and (x == L0.idx or x.kind == "loopvar") for x in walk(g))
                 if inv:
-                    return subst(term, {L0.idx: L.idx})
+                    return self.subst_deep(term, {L0.idx: L.idx})
         return Op("elem", it, L.idx)
 
     def delta_of(self, nxt, lvsym, L, lv):
@@ -2434,6 +2559,8 @@ class _LoopMixin:
             L.own_conds = L.body_guard_set - pre_set
             L.body_guard_full = flat_set(self.cur_guard_list())
             ctl.base_set = L.body_guard_set
+            if getattr(L, "filter", None) is not None:
+                ctl.cont.append(not_(L.filter))
             if self.feasible():
                 self.exec_block(st.body)
         finally:
@@ -2851,25 +2978,67 @@ class _ExtMixin:
                 hits.append(Op("exists", Const(it[1].lid), and_(it[3], t if want else not_(t))))
         return or_(*hits)
 
+    def synth_comp(self, f, src, n, as_filter):
+        """map(f, xs) / filter(f, xs) over an iterable that is not a tracked list: the generator expression it abbreviates"""
+        fr = self.frames[-1]
+        uid = self.next_loop
+        nf, ns, nx = "<mapf%d>" % uid, "<mapsrc%d>" % uid, "<mapx%d>" % uid
+        fr.env[nf], fr.env[ns] = f, src
+        x = ast.Name(id=nx, ctx=ast.Load())
+        call = x if (isinstance(f, Const) and f.v is None) else ast.Call(func=ast.Name(id=nf, ctx=ast.Load()), args=[x], keywords=[])
+        gen = ast.comprehension(target=ast.Name(id=nx, ctx=ast.Store()), iter=ast.Name(id=ns, ctx=ast.Load()),
+                                ifs=[call] if as_filter else [], is_async=0)
+        node = ast.GeneratorExp(elt=x if as_filter else call, generators=[gen])
+        if n is not None:
+            ast.copy_location(node, n)
+        ast.fix_missing_locations(node)
+        try:
+            return self.ev(node)
+        finally:
+            for nm in (nf, ns, nx):
+                fr.env.pop(nm, None)
+
     def x_filter(self, a, k, n):
+        if len(a) == 2 and self.seq_items(a[1], n) is None and not isinstance(self.simp(a[1]), Undef):
+            return self.synth_comp(a[0], a[1], n, True)
         if len(a) == 2:
-            els = self.concrete_iter(self.simp(a[1]))
-            if els is not None and len(els) <= UNROLL_MAX:
+            items = self.seq_items(a[1], n)
+            if items is not None and len(items) <= UNROLL_MAX and all(it[0] in ("v", "rep") and not (
+                    isinstance(it[1 if it[0] == "v" else 2], Op) and it[1 if it[0] == "v" else 2].op == "splat") for it in items):
                 res = self.mk_list([])
                 o = self.heap[res.oid]
-                for e in els:
+                src = self.as_list(self.simp(a[1]))
+                if getattr(src, "comp", None):
+                    o.comp = src.comp
+                for it in items:
+                    e = it[1] if it[0] == "v" else it[2]
+                    g0 = it[2] if it[0] == "v" else it[3]
                     keep = self.truth(e) if (isinstance(a[0], Const) and a[0].v is None) else self.truth(self.call_value(a[0], [e], {}, n))
+                    keep = and_(g0, keep)
                     if keep == FALSE:
                         continue
-                    o.items.append(("v", e, keep))
+                    o.items.append(("v", e, keep) if it[0] == "v" else ("rep", it[1], e, keep))
                 return res
         return None
 
     def x_map(self, a, k, n):
+        if len(a) == 2 and self.seq_items(a[1], n) is None and not isinstance(self.simp(a[1]), Undef):
+            return self.synth_comp(a[0], a[1], n, False)
         if len(a) == 2:
-            els = self.concrete_iter(self.simp(a[1]))
-            if els is not None and len(els) <= UNROLL_MAX:
-                return self.mk_list([self.call_value(a[0], [e], {}, n) for e in els])
+            items = self.seq_items(a[1], n)
+            if items is not None and len(items) <= UNROLL_MAX and all(it[0] in ("v", "rep") and not (
+                    isinstance(it[1 if it[0] == "v" else 2], Op) and it[1 if it[0] == "v" else 2].op == "splat") for it in items):
+                res = self.mk_list([])
+                o = self.heap[res.oid]
+                src = self.as_list(self.simp(a[1]))
+                if getattr(src, "comp", None):
+                    o.comp = src.comp
+                for it in items:
+                    if it[0] == "v":
+                        o.items.append(("v", self.call_value(a[0], [it[1]], {}, n), it[2]))
+                    else:
+                        o.items.append(("rep", it[1], self.call_value(a[0], [it[2]], {}, n), it[3]))
+                return res
         return None
 
     def x_sum(self, a, k, n):
